@@ -268,6 +268,7 @@ def build(repo, trace):
     trace.fire('R-derive-ord')
     ctx = rsx.get_item(src, r'^struct Context\b', 0, 'struct Context')
     ctx = re.sub(r'#\[derive\([^\]]*\)\]\n', '', ctx).replace('struct Context', 'pub struct Context').replace('    ops: IndexMap<Op, Node>,', '    pub ops: IndexMap,')
+    ctx = re.sub(r'^    (?!pub )(\w+):', r'    pub \1:', ctx, flags=re.M)   # a field added by an edit must not make the struct opaque to the contracts
     a, b = rsx.impl_block(src, r'^impl Context\b', 'impl Context')
     names = (['check_node', 'get_const', 'get_op', 'var', 'x', 'y', 'z', 'constant', 'op_unary', 'op_binary', 'op_binary_commutative']
              + list(BIN_REWRITE) + UNARY + list(BIN_EXACT) + ['less_than', 'less_than_or_equal', 'if_nonzero_else'])
